@@ -21,7 +21,22 @@ def statement(imports, lemma):
     return " ".join(m.group(1).split())
 
 
+def append_main():
+    """mkprops.py --append Cnn imports name=lemma ...  : appends theorem blocks (and the needed Require) to an existing Props file"""
+    _, prop, imports, *items = sys.argv[1:]
+    imports = imports.split(",")
+    path = os.path.join(COQ, "Props", prop + ".v")
+    lines = ["", f"From NGO Require Import {' '.join(imports)}.", ""]
+    for it in items:
+        name, lemma = it.split("=")
+        st = statement(imports, lemma)
+        lines += [f"Theorem {name} : {st}.", f"Proof. exact (@{lemma}). Qed.", f"Print Assumptions {name}.", ""]
+    open(path, "a").write("\n".join(lines))
+
+
 def main():
+    if sys.argv[1] == "--append":
+        return append_main()
     prop, header, imports, *items = sys.argv[1:]
     imports = imports.split(",")
     lines = [f"(* {prop}: {header}\n   Only statements, `exact`, and Print Assumptions live here. *)",
